@@ -134,6 +134,13 @@ class Zip(object):
                 else:
                     value.append(val)
             if break_while:
+                # let every sequence finish its compute or request
+                # (a FillRequest resets its element and its counters
+                # only after its last result was taken),
+                # otherwise its next results would be wrong.
+                for res in results:
+                    for _ in res:
+                        pass
                 break
             # combine data and context for output value
             dc = [functions.get_data_context(val) for val in value]
